@@ -137,6 +137,56 @@ def compare_stream(ctx, name, mmh_args, stats, stdin_data=None):
     return problems
 
 
+def burst_programs(seed, quick):
+    """MANY schedule calls between two drains of the scheduler (seeded C11d bounded the VM's hand-over queue at 256 and dropped the
+    rest): a recursive function schedules N counter tasks at once — from dsp at one sample, from global scope, or from a running task —
+    all for one sample or spread over three.  Expected output (ideal semantics, computed here): the number of tasks due so far."""
+    import struct
+    out = []
+    ns = [1, 7, 255, 256, 257, 300, 513, 1000] if quick else [1, 2, 7, 64, 255, 256, 257, 258, 300, 511, 512, 513, 1000, 2000, 4000]
+    k = 0
+    for n in ns:
+        for origin in ("dsp", "global", "task"):
+            for spread in (1, 3):
+                if origin == "dsp" and spread == 3:
+                    continue      # a task scheduled from dsp for later than the next sample loses its closure record on WASM: finding F17
+                t0 = 2 + (k % 3)
+                due = lambda i, base: base + 1 + (i % spread)          # i = 1..n (the value of the recursion counter)
+                head = ("let c = 0.0\nfn tick(){\n  c = c + 1.0\n}\n"
+                        f"fn burst(n){{\n  if (n > 0.5) {{\n    tick@(now + 1.0 + (n % {spread}.0))\n    burst(n - 1.0)\n  }} else {{\n    0.0\n  }}\n}}\n")
+                if origin == "dsp":
+                    src = head + f"fn dsp(){{\n  let z = if (now == {t0}.0) {{ burst({n}.0) }} else {{ 0.0 }}\n  c + z\n}}\n"
+                    base = t0
+                elif origin == "global":
+                    src = head + f"let z0 = burst({n}.0)\nfn dsp(){{\n  c\n}}\n"
+                    base = 0
+                else:
+                    src = head + f"fn starter(){{\n  let z = burst({n}.0)\n}}\nlet z1 = starter@{t0}.0\nfn dsp(){{\n  c\n}}\n"
+                    base = t0
+                ticks = base + 8
+                dues = [due(i, base) for i in range(1, n + 1)]
+                exp = [float(sum(1 for d in dues if d <= t)) for t in range(ticks)]
+                out.append({"id": f"burst:{n}:{origin}:{spread}", "src": src, "ticks": ticks,
+                            "expected": ",".join("%016x" % struct.unpack("<Q", struct.pack("<d", x))[0] for x in exp)})
+                k += 1
+    return out
+
+
+def run_burst(ctx, stats):
+    progs = burst_programs(ctx.seed, ctx.tier == "quick")
+
+    def work(pr):
+        p = mmh("C11", ["src", str(pr["ticks"])], input=pr["src"], timeout=600)
+        got = dict(l.split("\t", 1) for l in p.stdout.splitlines() if "\t" in l)
+        return pr, got.get("vm", "harness-died rc=%s %s" % (p.returncode, p.stderr[-200:])), got.get("wasm", "harness-died")
+    bad = []
+    for pr, vm, wasm in parallel(progs, work):
+        stats["burst_programs"] = stats.get("burst_programs", 0) + 1
+        if vm != pr["expected"] or wasm != pr["expected"]:
+            bad.append(dict(pr, vm=vm[:400], wasm=wasm[:400]))
+    return bad
+
+
 def main(ctx, args):
     ctx.assumptions += [
         "model Model/Sched.lean is a hand port of mimium-scheduler/src/{scheduler,wasm_handle}.rs and of the on_sample-then-dsp order of VmDspRuntime/WasmDspRuntime::run_dsp; the tie is the correspondence run below",
@@ -200,6 +250,22 @@ def main(ctx, args):
             stats["boundary_samples"] += st["boundary_samples"][:1]
             stats["f17_samples"] += st["f17_samples"][:1]
             problems += pr
+    burst_bad = []
+    if not args.replay or "burst" in json.load(open(args.replay)).get("id", ""):
+        if args.replay:
+            r = json.load(open(args.replay))
+            p = mmh("C11", ["src", str(r["ticks"])], input=r["src"], timeout=600)
+            got = dict(l.split("\t", 1) for l in p.stdout.splitlines() if "\t" in l)
+            if got.get("vm") != r["expected"] or got.get("wasm") != r["expected"]:
+                burst_bad = [dict(r, vm=got.get("vm", "")[:400], wasm=got.get("wasm", "")[:400])]
+        else:
+            burst_bad = run_burst(ctx, stats)
+    if burst_bad:
+        b = min(burst_bad, key=lambda x: len(x["src"]) + int(x["id"].split(":")[1]))
+        side = "the VM" if b["vm"] != b["expected"] and b["wasm"] == b["expected"] else ("WASM" if b["vm"] == b["expected"] else "both runtimes")
+        ctx.violation(f"scheduled tasks do not run exactly once at their sample time: after a burst of schedule calls ({b['id']}) {side} "
+                      f"executed another number of tasks than were scheduled ({len(burst_bad)} failing burst programs); program:\n{b['src']}",
+                      dict(b, replay_cmd="./check C11 --replay <this file>", failing_cases=len(burst_bad)))
     # ---- decide
     f17 = [k for k in known if k.get("class") == "model-predicted-wasm-closure-record-reuse"]
     known_keys = {("ops", k["ops"]): k for k in known if "ops" in k}
